@@ -5,6 +5,7 @@ import (
 	"encoding/hex"
 	"encoding/json"
 	"fmt"
+	"go/ast"
 	"go/token"
 	"go/types"
 	"os"
@@ -1252,7 +1253,11 @@ func sortedKeys(m map[string]string) []string {
 // SSA (instructions without source positions and debug references); when the body changes the assumption is void and
 // the check says so instead of going on trusting the old text. Pins: /verif/props/pins.json (bin/govc pins rewrites it).
 
-func bodyFingerprint(fn *ssa.Function) string {
+func bodyFingerprint(fn *ssa.Function) string { return bodyFingerprintDepth(fn, 0) }
+
+func depthOK(d int) bool { return d < 3 }
+
+func bodyFingerprintDepth(fn *ssa.Function, depth int) string {
 	var b strings.Builder
 	var dump func(f *ssa.Function)
 	dump = func(f *ssa.Function) {
@@ -1264,6 +1269,13 @@ func bodyFingerprint(fn *ssa.Function) string {
 					continue
 				}
 				s := ins.String()
+				if ci, ok := ins.(ssa.CallInstruction); ok {
+					// an unexported helper of the repository is identified by its own body, not by its name
+					if callee := ci.Common().StaticCallee(); callee != nil && callee != fn && callee.Pkg != nil && isRepoPkg(callee.Pkg.Pkg) && !ast.IsExported(callee.Name()) && len(callee.Blocks) > 0 && depthOK(depth) {
+						s = strings.Replace(s, callee.String(), "helper:"+bodyFingerprintDepth(callee, depth+1), 1)
+						s = strings.Replace(s, callee.Name(), "helper:"+bodyFingerprintDepth(callee, depth+1), 1)
+					}
+				}
 				if v, ok := ins.(ssa.Value); ok {
 					s = v.Name() + " = " + s
 				}
